@@ -13,14 +13,16 @@ theorem Inv.nowLimit {g : Ghost} {s : State} (hi : Inv g s) : g.limit + 1 ≤ g.
 theorem refresh_eq (g : Ghost) :
     g.refresh = { g with evs := rekeep (inWindow g.now g.limit) g.evs } := rfl
 
-theorem inv_tick {g : Ghost} {s : State} (hi : Inv g s) (id : Nat) (hid : g.now ≤ id) (hid2 : id < U32) :
+theorem inv_tick {g : Ghost} {s : State} (hi : Inv g s) (id : Nat) (hidc : g.clock ≤ id) (hid2 : id < U32) :
     Inv (ghostStep g (.tick id)) (tick s id) := by
+  have hid : g.now ≤ id := Nat.le_trans hi.nowClock hidc
   have hr := hi.limit_range
   have hnl := hi.nowLimit
   have hms : s.limit / msPerHour = g.limit := hi.lim
   have hg : ghostStep g (.tick id) =
-      { evs := rekeep (inWindow id (s.limit / msPerHour)) g.evs, now := id, limit := s.limit / msPerHour,
-        enabled := g.enabled, dom := g.dom && decide (g.now ≤ id) && decide (id < U32) } := by
+      { evs := rekeep (inWindow id (s.limit / msPerHour)) g.evs, now := id, clock := id,
+        limit := s.limit / msPerHour,
+        enabled := g.enabled, dom := g.dom && decide (g.clock ≤ id) && decide (id < U32) } := by
     simp only [ghostStep, Ghost.advance, refresh_eq, hms]
   rw [hg]
   by_cases hsame : s.curr.id = id
@@ -64,8 +66,9 @@ theorem inv_tick {g : Ghost} {s : State} (hi : Inv g s) (id : Nat) (hid : g.now 
         simp [h2, this]
 
 theorem inv_restart {g : Ghost} {s s' : State} (hi : Inv g s) (id ms : Nat) (en : Bool)
-    (hid : g.now ≤ id) (hid2 : id < U32) (hs : restart s id ms en = some s') :
+    (hidc : g.clock ≤ id) (hid2 : id < U32) (hs : restart s id ms en = some s') :
     Inv (ghostStep g (.restart id ms en)) s' := by
+  have hid : g.now ≤ id := Nat.le_trans hi.nowClock hidc
   have hv : validIvl ms = true := by
     cases h : validIvl ms with
     | true => rfl
@@ -74,8 +77,8 @@ theorem inv_restart {g : Ghost} {s s' : State} (hi : Inv g s) (id ms : Nat) (en 
   have hlo := hi.lo
   simp only [minHour] at hlo
   have hg : ghostStep g (.restart id ms en) =
-      { evs := rekeep (inWindow id (ms / msPerHour)) g.evs, now := id, limit := ms / msPerHour,
-        enabled := en, dom := g.dom && decide (g.now ≤ id) && decide (id < U32) } := by
+      { evs := rekeep (inWindow id (ms / msPerHour)) g.evs, now := id, clock := id, limit := ms / msPerHour,
+        enabled := en, dom := g.dom && decide (g.clock ≤ id) && decide (id < U32) } := by
     simp only [ghostStep, Ghost.advance, refresh_eq]
   rw [hg]
   have hf : sub32 (sub32 id (ms / msPerHour)) 1 = id - ms / msPerHour - 1 := by
@@ -148,6 +151,8 @@ theorem dom_step {g : Ghost} {op : Op} (h : (ghostStep g op).dom = true) : g.dom
   | upd e n => simp only [ghostStep] at h; split at h <;> exact h
   | tick id =>
     simp only [ghostStep, Ghost.refresh, Ghost.advance, Bool.and_eq_true] at h; exact h.1.1
+  | advance h' =>
+    simp only [ghostStep, Ghost.wall, Bool.and_eq_true] at h; exact h.1.1
   | restart id l en =>
     simp only [ghostStep, Ghost.refresh, Ghost.advance, Bool.and_eq_true] at h; exact h.1.1
   | setDays d =>
@@ -169,6 +174,10 @@ theorem inv_step {g : Ghost} {s s' : State} (hi : Inv g s) (op : Op) (hs : step 
     simp only [step, Option.some.injEq] at hs; subst hs
     simp only [ghostStep, Ghost.refresh, Ghost.advance, Bool.and_eq_true, decide_eq_true_eq] at hd
     exact inv_tick hi id hd.1.2 hd.2
+  | advance h =>
+    simp only [step, Option.some.injEq] at hs; subst hs
+    simp only [ghostStep, Ghost.wall, Bool.and_eq_true, decide_eq_true_eq] at hd
+    exact inv_advance hi h _ hd.1.2 hd.2
   | restart id l en =>
     simp only [step] at hs
     simp only [ghostStep, Ghost.refresh, Ghost.advance, Bool.and_eq_true, decide_eq_true_eq] at hd
@@ -197,7 +206,8 @@ theorem inv_init {clock ms : Nat} {en : Bool} {s0 : State} (hs : new [] clock ms
     MemUnit.deserialize] at hs
   subst hs
   simp only [Ghost.init, Bool.and_eq_true, decide_eq_true_eq] at hd
-  refine { clock := rfl, cur := rfl, lim := rfl, ivl := hv, en := rfl, lo := hd.1, hi := hd.2,
+  refine { clock := rfl, nowClock := Nat.le_refl _, chi := hd.2, cur := rfl, lim := rfl, ivl := hv, en := rfl,
+           lo := hd.1, hi := hd.2,
            evHour := ?_, evKept := ?_, dbUp := ?_, curUp := ?_, curLo := ?_, dbLo := ?_ }
   · intro e he; simp [Ghost.init] at he
   · intro e he; simp [Ghost.init] at he
